@@ -14,9 +14,9 @@ G: MsgHeap: TLC explores every history of MaxOps operations (new, copy with
 """
 from .. import core
 
-CLS = {1: 'M', 2: 'MM', 3: 'SS', 4: 'UM', 5: 'RT'}
+CLS = {1: 'M', 2: 'MM', 3: 'SS', 4: 'UM', 5: 'RT', 6: 'SX'}
 OPS = {1: 'new', 2: 'copy', 3: 'freeze', 4: 'thaw', 5: 'setattr', 6: 'hash', 7: 'freeze_none',
-       8: 'thaw_none', 9: 'hashf', 10: 'delattr'}
+       8: 'thaw_none', 9: 'hashf', 10: 'delattr', 11: 'setnew'}
 BAD = 999
 TWIN = 777
 
@@ -29,6 +29,8 @@ def xval(cls, x):
         return 'note', x           # a clock message has no such attribute
     if cls == 'MM':
         return 'tempo', (1 << 24) if x == BAD else x
+    if cls == 'SX':
+        return 'data', [x]
     if cls == 'SS':
         return 'data', [x]         # the documented default of this attribute is a list
     return 'data', (x,)
@@ -41,6 +43,8 @@ def construct(cls, x, t):
         return mido.Message('clock', time=t) if x == 1 else mido.Message('clock', note=v, time=t)
     if cls == 'M':
         return mido.Message('note_on', note=v, time=t)
+    if cls == 'SX':
+        return mido.Message('sysex', data=v, time=t)
     if cls == 'MM':
         return mido.MetaMessage('set_tempo', tempo=v, time=t)
     if cls == 'SS':
@@ -69,6 +73,10 @@ def _describe(o):
             if set(vars(o)) != {'type', 'time'}:
                 return 'unexpected %s' % core.srepr(vars(o))
             return (5, fr, 1, o.time)
+        if base == 'Message' and o.type == 'sysex':
+            if type(o.data).__name__ != 'SysexData' or len(o.data) != 1:
+                return 'sysex data is %s %r' % (type(o.data).__name__, o.data)
+            return (6, fr, o.data[0], o.time)
         if base == 'Message':
             if o.type != 'note_on' or o.channel != 0 or o.velocity != 64:
                 return 'unexpected %s' % core.srepr(o)
@@ -151,6 +159,15 @@ def replay_history(steps):
                 if got_ok != ok:
                     return ('copy-outcome/' + c, '%s: copy(%r) %s, specification says %s' % (
                         where, ovr, 'succeeds' if got_ok else 'raises', 'accept' if ok else 'reject'))
+                if got_ok and c in ('M', 'SX', 'RT'):
+                    # the unchecked spelling builds the same message
+                    try:
+                        r2 = src.copy(skip_checks=True, **ovr)
+                    except Exception as e:
+                        return 'copy-skip_checks-raises/' + c, '%s: copy(skip_checks=True, %r) raised %r' % (where, ovr, e)
+                    if not (r2 == r) or type(r2) is not type(r) or isinstance(describe(r2), str):
+                        return ('copy-skip_checks-differs/' + c, '%s: copy(skip_checks=True, %r) = %s (%s), checked copy = %s' % (
+                            where, ovr, core.srepr(r2), describe(r2), core.srepr(r)))
                 if got_ok:
                     if r is src:
                         return 'copy-same-object/' + c, '%s: copy returned the original object' % where
@@ -209,6 +226,21 @@ def replay_history(steps):
                             '%s: del %s.%s succeeded' % (where, type(o).__name__, name))
                 except ALLOWED:
                     pass
+            elif op == 'setnew':
+                o = objs[i - 1]
+                before = dict(vars(o))
+                for name in ('foo', 'text', 'channel', '_cache'):
+                    if name in before:
+                        continue
+                    try:
+                        setattr(o, name, 1)
+                        return ('frozen-mutated/new-attribute/' + CLS[describe(o)[0]] if not isinstance(describe(o), str)
+                                else 'frozen-mutated/new-attribute',
+                                '%s: %s.%s = 1 was accepted on a frozen message' % (where, type(o).__name__, name))
+                    except ALLOWED:
+                        pass
+                if dict(vars(o)) != before:
+                    return 'frozen-mutated/new-attribute', '%s: attributes now %r' % (where, vars(o))
             elif op == 'hash':
                 a, b = objs[i - 1], objs[j - 1]
                 try:
@@ -298,8 +330,8 @@ CHECK_DEADLOCK FALSE
 
 def run(ctx):
     thorough = ctx.tier == 'thorough'
-    allc = '{"M", "MM", "SS", "UM", "RT"}'
-    plans = [(3, 4, allc)] if thorough else [(3, 3, allc), (3, 4, '{"SS"}'), (2, 4, '{"UM"}'), (3, 4, '{"RT"}')]
+    allc = '{"M", "MM", "SS", "UM", "RT", "SX"}'
+    plans = [(3, 4, allc)] if thorough else [(3, 3, allc), (3, 4, '{"SS"}'), (2, 4, '{"UM"}'), (3, 4, '{"RT"}'), (3, 4, '{"SX"}')]
     # times -1 and -2 (equal hashes, unequal messages), four objects
     plans = plans + [(4, 4, '{"M"}', 'NegTimes'), (4, 4, '{"MM"}', 'NegTimes')]
     if thorough:
